@@ -3,7 +3,7 @@ SPECIFICATION Spec
 CONSTANTS
   Rids = {1}
   MaxItems = 2
-  Outcomes = {"success", "successSetsId", "successClearsId", "typedError", "plainError", "panic", "unrouted", "critical"}
+  Outcomes = {"success", "successSetsId", "successClearsId", "discover", "typedError", "plainError", "panic", "unrouted", "critical"}
   Options = {"unset", "Continue", "Stop", "Undo"}
 INVARIANTS Emit
 CHECK_DEADLOCK FALSE
